@@ -152,6 +152,11 @@ class Sem:
             return ("upvar", e.info[0], e.info[2] or str(e.info[1]), ())
         if op == "const":
             return ("const",) + tuple(e.info[:2])
+        if op == "call" and e.info == "std::ops::Index::index" and e.args:
+            bl = self.label(e.args[0], depth + 1)
+            if bl and bl[0] in ("info", "stored", "query", "param"):
+                return bl[:-1] + (bl[-1] + ("[]",),)
+            return None
         if op == "call":
             so = self.storage_op(e)
             if so and so[0] == "read":
